@@ -39,6 +39,9 @@ type Gen struct {
 	extH        map[string]uint64
 	pair        [2]string // (event type, mutated field) of the hash pair being emitted
 	genesisMode bool
+	closedLoop  bool // loop profile: execution claims are only those the ghost contracts / multisig would emit
+	ext         *extWorld
+	splitVotes  bool // ledger-type profiles: let a claim's votes straddle a block boundary now and then
 	digests     []string
 	digestAt    []int
 }
@@ -302,10 +305,18 @@ func (g *Gen) dumpAll() {
 // voteAll submits the event from every bonded validator (through its orchestrator when one is
 // registered for the chain), so that it reaches quorum at the next end-block.
 func (g *Gen) voteAll(chain string, ev string) {
+	// sometimes the votes straddle a block boundary: the first voter alone is below the threshold when the block ends
+	split := g.splitVotes && g.rng.Intn(6) == 0
+	voters := 0
 	for _, v := range g.vals {
 		if !v.bonded {
 			continue
 		}
+		if split && voters == 1 {
+			split = false
+			g.block()
+		}
+		voters++
 		signer := v.addr
 		if o, ok := v.orch[chain]; ok && g.rng.Intn(2) == 0 {
 			signer = o
@@ -405,7 +416,70 @@ func (g *Gen) opDeposit() {
 	g.voteAll(chain, fmt.Sprintf("ttc %d %s %s %s %s %s %s %d %s", n, coin, amt, fee, sender, rchain, recv, h, tx))
 }
 
+// observeExt lets the ghost external chains learn the batches the hub has emitted so far.
+func (g *Gen) observeExt() {
+	if !g.closedLoop {
+		return
+	}
+	if g.ext == nil {
+		g.ext = newExtWorld()
+	}
+	for _, c := range []string{"ethereum", "minter", "bsc"} {
+		var vs []batchView
+		for _, b := range g.env.Batches(g.env.ctx, c) {
+			v := batchView{nonce: b.BatchNonce, timeout: b.Timeout, extToken: b.ExternalTokenId}
+			for _, t := range b.Transactions {
+				v.txs = append(v.txs, steView{amount: t.Token.Amount.BigInt()})
+			}
+			vs = append(vs, v)
+		}
+		g.ext.observe(c, vs)
+	}
+}
+
+// opExternalExecution: a relayer submits some batch the external chain still accepts (also one the hub may
+// meanwhile have withdrawn); the execution event is then voted by everybody.
+func (g *Gen) opExternalExecution() {
+	g.observeExt()
+	chain := g.pick([]string{"ethereum", "minter", "bsc"})
+	h := g.eventHeight(chain)
+	pending := map[string]bool{}
+	for _, b := range g.env.Batches(g.env.ctx, chain) {
+		pending[fmt.Sprintf("%s/%s/%d", chain, b.ExternalTokenId, b.BatchNonce)] = true
+	}
+	var cands, withdrawn []*ghostBatch
+	for _, k := range g.ext.order {
+		gb := g.ext.batches[k]
+		if gb.chain == chain && g.ext.executable(chain, gb.token, gb.nonce, h) != nil {
+			cands = append(cands, gb)
+			if !pending[k] {
+				withdrawn = append(withdrawn, gb)
+			}
+		}
+	}
+	if len(cands) == 0 {
+		return
+	}
+	gb := cands[g.rng.Intn(len(cands))]
+	if len(withdrawn) > 0 && g.rng.Intn(2) == 0 {
+		gb = withdrawn[g.rng.Intn(len(withdrawn))]
+		g.stats["loop:executed-a-batch-the-hub-withdrew"]++
+	}
+	g.ext.execute(gb)
+	n := g.nextEvt[chain]
+	g.nextEvt[chain]++
+	feePaid := g.amountFor(18)
+	if g.rng.Intn(2) == 0 {
+		feePaid = big.NewInt(int64(g.rng.Intn(1000000)))
+	}
+	g.voteAll(chain, fmt.Sprintf("bex %s %d %d %d 0x%s %s %s", gb.token, n, gb.nonce, h, g.nextTag(), feePaid, g.pick(g.recips)))
+}
+
 func (g *Gen) opBatchExecuted() {
+	if g.closedLoop {
+		g.opExternalExecution()
+		return
+	}
 	chain := g.pick([]string{"ethereum", "minter", "bsc"})
 	bs := g.env.Batches(g.env.ctx, chain)
 	coin, bn := "0", uint64(1+g.rng.Intn(3))
@@ -461,6 +535,10 @@ func (g *Gen) block() {
 
 func (g *Gen) runLedger(nops int) {
 	g.setup()
+	g.splitVotes = true
+	if g.closedLoop {
+		g.do("world loop")
+	}
 	g.do(fmt.Sprintf("block %d %d", g.height, g.time))
 	g.do("begin")
 	for i := 0; i < nops; i++ {
@@ -475,6 +553,11 @@ func (g *Gen) runLedger(nops int) {
 			g.opDeposit()
 		case x < 72:
 			g.opBatchExecuted()
+		case x < 74:
+			// a quiet stretch: blocks pass, nothing is reported from outside
+			for k := 3 + g.rng.Intn(14); k > 0; k-- {
+				g.block()
+			}
 		default:
 			g.block()
 		}
@@ -543,6 +626,9 @@ func genMain(args []string) {
 func runProfile(g *Gen, profile string, nops int) {
 	switch profile {
 	case "ledger":
+		g.runLedger(nops)
+	case "loop":
+		g.closedLoop = true
 		g.runLedger(nops)
 	case "votes":
 		g.runVotes(nops)
